@@ -9,6 +9,7 @@ VERIF = os.path.dirname(os.path.dirname(os.path.abspath(__file__)))
 
 # Harness-controlled routing table: (app_label, model_name_lower) -> alias.
 ROUTE = {}
+ROUTE_FALLBACK = [None]
 _done = False
 
 
@@ -22,7 +23,11 @@ class HarnessRouter(object):
         return ROUTE.get((app_label, model_name.lower()))
 
     def db_for_read(self, model, **hints):
-        return self._alias(model._meta.app_label, model._meta.model_name)
+        # ROUTE_FALLBACK[0] = 'default' models the common "whatever I do
+        # not manage goes to default" router (an opinion on foreign models,
+        # django_evolution's own included)
+        return self._alias(model._meta.app_label,
+                           model._meta.model_name) or ROUTE_FALLBACK[0]
 
     db_for_write = db_for_read
 
